@@ -1,13 +1,17 @@
 #!/venv/bin/python
 """Copies a confirmed seeded change from /tmp/seed_<P>/<m> into /verif/seeded/<P>-<m>/ with an augmented meta.json."""
 import json, os, shutil, sys
-for arg in sys.argv[1:]:
+ROUND = ""
+args = sys.argv[1:]
+if args and args[0].startswith("--round="):       # --round=2: sources /tmp/seed2_<P>/<m>, destination <P>-r2<m>
+    ROUND = args.pop(0).split("=")[1]
+for arg in args:
     prop, m = arg.split("/")
-    src = f"/tmp/seed_{prop}/{m}"
+    src = f"/tmp/seed{ROUND}_{prop}/{m}"
     ev = json.load(open(f"{src}/eval.json"))
     if not (ev.get("applies") and ev.get("tests_ok") and ev.get("demo_fails_with_change") and ev.get("demo_passes_without_change")):
         print("NOT CONFIRMED, skipped:", arg, ev); continue
-    dst = f"/verif/seeded/{prop}-{m}"
+    dst = f"/verif/seeded/{prop}-{'r' + ROUND if ROUND else ''}{m}"
     os.makedirs(dst, exist_ok=True)
     shutil.copy(f"{src}/patch.diff", f"{dst}/patch.diff")
     shutil.copy(f"{src}/demo.py", f"{dst}/demo.py")
@@ -15,7 +19,8 @@ for arg in sys.argv[1:]:
     checks = {k[6:]: v for k, v in ev.items() if k.startswith("check_")}
     meta.update({
         "breaks_property": meta.get("property", prop),
-        "origin": "written by an independent sub-agent that saw only the property text and a scratch worktree",
+        "origin": "written by an independent sub-agent that saw only the property text and a scratch worktree"
+                  + (f" (round {ROUND}: two cooperating sites / history- or shape-dependent changes)" if ROUND else ""),
         "confirmed": {"tests_with_change": ev["tests"], "demo_fails_with_change": True, "demo_passes_without_change": True,
                       "how": "tools/seed_eval.py: git apply in a scratch worktree, pytest (558 passed / 68 pre-existing failures), "
                              "PYTHONPATH=<worktree> /venv/bin/python demo.py with and without the change"},
